@@ -4,3 +4,4 @@ import NumbatModel.Props.C18
 #print axioms NumbatModel.ListM.run_refines_from
 #print axioms NumbatModel.ListM.run_refines
 #print axioms NumbatModel.ListM.never_panics
+#print axioms NumbatModel.ListM.eq_is_sequence_equality
